@@ -159,7 +159,7 @@ Qed.
 Lemma H_deliver_top s c : s_cancelled (scopes s c) = true -> c < nscope s -> hstep s (deliver_top s c).
 Proof.
   intros Hc Ha H. unfold deliver_top.
-  apply (deliver_inv' (fun a => HDI a /\ s_cancelled (scopes a c) = true /\ c < nscope a) c); [| | |now repeat split].
+  apply (deliver_inv' (fun a => HDI a /\ s_cancelled (scopes a c) = true /\ c < nscope a) c); [| | |exact (conj H (conj Hc Ha))].
   - intros self a r t [Da [Ca Aa]]. pose proof (kframe_deliver_task self c a r t) as K.
     split; [|split].
     + apply (HDI_neutral a); [exact Da|apply kframe_treq, K| |apply rdq_deliver_task].
@@ -203,8 +203,645 @@ Qed.
 
 Lemma H_scope_timeout s c : hstep s (scope_timeout s c).
 Proof.
-  intros H. unfold scope_timeout. destruct (s_deadline (scopes s c)); [|exact H].
+  intros H. pose proof (treq_scope_timeout s c) as Q. unfold scope_timeout in *.
+  destruct (s_deadline (scopes s c)); [|exact H].
   destruct (Z.leb z (now s)); [now apply H_scope_cancel|].
-  apply (HDI_neutral s); [exact H|apply treq_scope_timeout_arm| |now apply rdq_same].
+  apply (HDI_neutral s); [exact H|exact Q| |now apply rdq_same].
   intros x. cbn. unfold upd. destruct (Nat.eqb_spec x c); [subst|]; auto.
 Qed.
+
+(* ---------------- frames with explicit fields ---------------- *)
+Lemma HDI_frame a b :
+  HDI a -> nscope a <= nscope b ->
+  (forall x p, s_parent (scopes b x) = Some p -> s_parent (scopes a x) = Some p \/ p < nscope b) ->
+  (forall c, s_host (scopes b c) <> None -> s_host (scopes a c) <> None \/ c < nscope b) ->
+  (forall t x, k_cur (tasks b t) = Some x -> k_cur (tasks a t) = Some x \/ x < nscope b) ->
+  (forall c, c < nscope a -> s_cancelled (scopes a c) = true -> s_cancelled (scopes b c) = true) ->
+  rdq a b -> HDI b.
+Proof.
+  intros [C P H K] N Fp Fh Fk M R. constructor.
+  - intros c Hc. destruct (C c (R c Hc)) as [C1 C2]. split; [now apply M|lia].
+  - intros x p Hp. destruct (Fp x p Hp) as [E|E]; [|exact E]. pose proof (P x p E). lia.
+  - intros c Hc. destruct (Fh c Hc) as [E|E]; [|exact E]. pose proof (H c E). lia.
+  - intros t x Hx. destruct (Fk t x Hx) as [E|E]; [|exact E]. pose proof (K t x E). lia.
+Qed.
+
+Lemma H_upd_scope s c g :
+  (forall k, s_parent (g k) = s_parent k /\ s_host (g k) = s_host k /\ (s_cancelled k = true -> s_cancelled (g k) = true)) ->
+  hstep s (upd_scope s c g).
+Proof.
+  intros Hg H. apply (HDI_frame s); [exact H|cbn; lia| | | | |now apply rdq_same].
+  - intros x p. cbn. unfold upd. destruct (Nat.eqb_spec x c); [subst; rewrite (proj1 (Hg _))|]; auto.
+  - intros x. cbn. unfold upd. destruct (Nat.eqb_spec x c); [subst; rewrite (proj1 (proj2 (Hg _)))|]; auto.
+  - intros t x. cbn. auto.
+  - intros x _. cbn. unfold upd. destruct (Nat.eqb_spec x c); [subst; apply Hg|]; auto.
+Qed.
+
+Record hq (a b : st) : Prop := {
+  hq_t : treq a b;
+  hq_m : forall x, s_cancelled (scopes a x) = true -> s_cancelled (scopes b x) = true;
+  hq_r : rdq a b
+}.
+
+Lemma hq_refl a : hq a a.
+Proof. constructor; [apply treq_refl|auto|apply rdq_refl]. Qed.
+
+Lemma hq_trans a b c : hq a b -> hq b c -> hq a c.
+Proof.
+  intros [A1 A2 A3] [B1 B2 B3]. constructor; [eapply treq_trans; eauto|auto|eapply rdq_trans; eauto].
+Qed.
+
+Lemma HDI_hq a b : HDI a -> hq a b -> HDI b.
+Proof. intros H [Q M R]. now apply (HDI_neutral a). Qed.
+
+Lemma hstep_hq a b : hq a b -> hstep a b.
+Proof. intros Q H. now apply (HDI_hq a). Qed.
+
+Lemma hq_ss a b : treq a b -> ssame a b -> rdq a b -> hq a b.
+Proof. intros Q [E _] R. constructor; auto. intros x. now rewrite E. Qed.
+
+Lemma hq_begin_act s t : hq s (begin_act s t).
+Proof. apply hq_ss; [apply treq_begin_act|apply ss_begin_act|now apply rdq_same]. Qed.
+Lemma hq_ret s t r : hq s (fst (ret_to_puppet s t r)).
+Proof. apply hq_ss; [apply treq_ret_to_puppet|apply ss_ret|apply rdq_ret]. Qed.
+Lemma hq_park s t : hq s (park s t).
+Proof. apply hq_ss; [apply treq_park|apply ss_park|apply rdq_park]. Qed.
+Lemma hq_incoming s t fo : hq s (fst (incoming s t fo)).
+Proof. apply hq_ss; [apply treq_incoming|apply ss_incoming|now apply rdq_same]. Qed.
+Lemma hq_fut_complete s f v : hq s (fut_complete s f v).
+Proof. apply hq_ss; [apply treq_fut_complete|apply ss_fut_complete|apply rdq_fut_complete]. Qed.
+Lemma hq_task_cancel s t o : hq s (task_cancel s t o).
+Proof. apply hq_ss; [apply treq_task_cancel|apply ss_task_cancel|apply rdq_task_cancel]. Qed.
+Lemma hq_event_set s e : hq s (event_set s e).
+Proof. apply hq_ss; [apply treq_event_set|apply ss_event_set|apply rdq_event_set]. Qed.
+Lemma hq_event_wait s t e : hq s (fst (event_wait s t e)).
+Proof. apply hq_ss; [apply treq_event_wait|apply ss_event_wait|apply rdq_event_wait]. Qed.
+Lemma hq_event_unwait s e fo : hq s (event_unwait s e fo).
+Proof. apply hq_ss; [apply treq_event_unwait|apply ss_event_unwait|destruct fo; now apply rdq_same]. Qed.
+Lemma hq_finish_task s t o : hq s (finish_task s t o).
+Proof. apply hq_ss; [apply treq_finish_task|apply ss_finish_task|apply rdq_finish_task]. Qed.
+Lemma hq_timer_cancel s tm : hq s (timer_cancel s tm).
+Proof. apply hq_ss; [apply treq_timer_cancel|apply ss_timer_cancel|apply rdq_timer_cancel]. Qed.
+Lemma hq_tick s dt : hq s (tick s dt).
+Proof. apply hq_ss; [apply treq_tick|apply ss_tick|apply rdq_tick]. Qed.
+Lemma hq_suspend_on s t f : hq s (suspend_on s t f).
+Proof. apply hq_ss; [apply treq_suspend_on|apply ss_suspend_on|apply rdq_suspend_on]. Qed.
+Lemma hq_set_running s v : hq s (set_running s v).
+Proof. apply hq_ss; [apply treq_set_running|now split|now apply rdq_same]. Qed.
+Lemma hq_upd_group s g f : (forall k, gr_tree (f k) = gr_tree k) -> hq s (upd_group s g f).
+Proof. intros H. apply hq_ss; [now apply treq_upd_group|now split|now apply rdq_same]. Qed.
+Lemma hq_upd_task s t g : (forall k, tk_tree (g k) = tk_tree k) -> hq s (upd_task s t g).
+Proof. intros H. apply hq_ss; [now apply treq_upd_task|now split|now apply rdq_same]. Qed.
+Lemma hq_set_ctl s t c : hq s (set_ctl s t c).
+Proof. apply hq_ss; [apply treq_set_ctl|now split|now apply rdq_same]. Qed.
+Lemma hq_bare_yield s t : hq s (bare_yield s t).
+Proof. apply hq_ss; [apply treq_bare_yield|now split|apply (rdq_soon _ _ (HStep t)); [reflexivity|discriminate]]. Qed.
+Lemma hq_new_fut s : hq s (fst (new_fut s)).
+Proof. apply hq_ss; [apply treq_new_fut|now split|now apply rdq_same]. Qed.
+Lemma hq_call_at s w x : hq s (fst (call_at s w x)).
+Proof. apply hq_ss; [apply treq_call_at|now split|now apply rdq_same]. Qed.
+Lemma hq_cancel_timeout s c : hq s (cancel_timeout s c).
+Proof.
+  constructor; [apply treq_cancel_timeout| |apply rdq_cancel_timeout].
+  intros x. now rewrite (vw_cancelled _ _ (dq_scope _ _ (dq_cancel_timeout s c) x)).
+Qed.
+Lemma hq_upd_scope s c g :
+  (forall k, sc_tree (g k) = sc_tree k) -> (forall k, s_cancelled k = true -> s_cancelled (g k) = true) -> hq s (upd_scope s c g).
+Proof.
+  intros H1 H2. constructor; [now apply treq_upd_scope| |now apply rdq_same].
+  intros x. cbn. unfold upd. destruct (Nat.eqb_spec x c); [subst|]; auto.
+Qed.
+
+(* ---------------- entering, leaving, creating ---------------- *)
+Lemma H_enter s c t : c < nscope s -> hstep s (fst (scope_enter s c t)).
+Proof.
+  intros Ac H. destruct (s_active (scopes s c)) eqn:Ea; [now rewrite (scope_enter_fail s c t Ea)|].
+  rewrite (scope_enter_eq s c t Ea).
+  assert (H3 : HDI (enter_s3 s c t)).
+  { unfold enter_s3. set (par := k_cur (tasks s t)).
+    set (s1 := upd_scope s c (fun x => sc_parent par (sc_tasks (add t (s_tasks x)) (sc_host (Some t) x)))).
+    set (s2 := upd_task s1 t (tk_cur (Some c))).
+    assert (H2 : HDI s2).
+    { apply (HDI_frame s); [exact H|cbn; lia| | | | |now apply rdq_same].
+      - intros x p. unfold s2, s1. cbn. unfold upd. destruct (Nat.eqb_spec x c) as [->|Hx]; [|auto].
+        cbn. intros E. right. unfold par in E. now apply (hd_k _ H t p).
+      - intros x. unfold s2, s1. cbn. unfold upd. destruct (Nat.eqb_spec x c) as [->|Hx]; [|auto]. intros _. now right.
+      - intros t' x. unfold s2, s1. cbn. unfold upd. destruct (Nat.eqb_spec t' t) as [->|Ht]; [|auto].
+        cbn. intros E. inversion E; subst x. now right.
+      - intros x _. unfold s2, s1. cbn. unfold upd. destruct (Nat.eqb_spec x c) as [->|Hx]; auto. }
+    destruct par as [p|]; [|exact H2]. apply H_upd_scope; [|exact H2]. intros k; now repeat split. }
+  assert (H5 : HDI (enter_s5 s c t)).
+  { unfold enter_s5. apply H_upd_scope; [intros k; now repeat split|]. now apply H_scope_timeout. }
+  destruct (s_cancelled (scopes (enter_s5 s c t) c)) eqn:Ec; [|exact H5].
+  apply H_deliver_top; [exact Ec| |exact H5].
+  unfold enter_s5. cbn [nscope upd_scope set_scopes].
+  rewrite (tq_nscope _ _ (treq_scope_timeout (enter_s3 s c t) c)). unfold enter_s3.
+  destruct (k_cur (tasks s t)); exact Ac.
+Qed.
+
+Lemma H_new_scope s d sh : hstep s (fst (new_scope s d sh)).
+Proof.
+  intros H. apply (HDI_frame s); [exact H|cbn; lia| | | | |now apply rdq_same].
+  - intros x p. cbn. unfold upd. destruct (Nat.eqb_spec x (nscope s)); [cbn; discriminate|auto].
+  - intros x. cbn. unfold upd. destruct (Nat.eqb_spec x (nscope s)); [cbn; intros E; now elim E|auto].
+  - intros t x. cbn. auto.
+  - intros x Hx. cbn. unfold upd. destruct (Nat.eqb_spec x (nscope s)); [lia|auto].
+Qed.
+
+Lemma iter_uncancel_ready n t : forall a, ready (iter n (fun a => task_uncancel a t) a) = ready a.
+Proof. induction n as [|n IH]; intros a; cbn [iter]; [reflexivity|]. now rewrite IH. Qed.
+
+Lemma iter_uncancel_cur n t : forall a x, k_cur (tasks (iter n (fun a => task_uncancel a t) a) x) = k_cur (tasks a x).
+Proof.
+  induction n as [|n IH]; intros a x; cbn [iter]; [reflexivity|]. rewrite IH.
+  unfold task_uncancel. cbn. unfold upd. destruct (Nat.eqb_spec x t); [subst|]; reflexivity.
+Qed.
+
+Lemma H_exit s c t exc : hstep s (fst (scope_exit s c t exc)).
+Proof.
+  intros H. unfold scope_exit.
+  destruct (s_active (scopes s c)) eqn:Ha; cbn [negb]; [|exact H].
+  destruct (opt_eqb (s_host (scopes s c)) t) eqn:Hh; cbn [negb]; [|exact H].
+  destruct (opt_eqb (k_cur (tasks s t)) c) eqn:Hc; cbn [negb]; [|exact H].
+  fold (exit_struct s c t).
+  set (par := s_parent (scopes s c)).
+  assert (H4 : HDI (exit_struct s c t)).
+  { apply (HDI_frame s); [exact H|rewrite (in_nscope _ _ (exit_struct_inert s c t)); lia| | | | |].
+    - intros x p. rewrite (vw_parent _ _ (exit_struct_view s c t x)). auto.
+    - intros x. rewrite (vw_host _ _ (exit_struct_view s c t x)). auto.
+    - intros t' x. rewrite exit_struct_task. destruct (Nat.eqb_spec t' t) as [->|Ht]; [|auto].
+      intros E. right. rewrite (in_nscope _ _ (exit_struct_inert s c t)). apply (hd_p _ H c x). exact E.
+    - intros x _. now rewrite (vw_cancelled _ _ (exit_struct_view s c t x)).
+    - intros x Hx. unfold exit_struct in Hx. cbn [ready upd_task set_tasks] in Hx.
+      assert (E : ready (match par with
+                         | Some p => upd_scope (upd_scope (cancel_timeout (upd_scope s c (sc_active false)) c) c
+                                        (fun x => sc_tasks (del t (s_tasks x)) x)) p
+                                        (fun x => sc_tasks (add t (s_tasks x)) (sc_children (del c (s_children x)) x))
+                         | None => upd_scope (cancel_timeout (upd_scope s c (sc_active false)) c) c
+                                        (fun x => sc_tasks (del t (s_tasks x)) x)
+                         end) = ready (cancel_timeout (upd_scope s c (sc_active false)) c)) by (destruct par; reflexivity).
+      fold par in Hx. rewrite E in Hx. now apply (rdq_cancel_timeout _ c) in Hx. }
+  set (s5 := restart (exit_struct s c t) par).
+  assert (H5 : HDI s5).
+  { apply H_restart; [|exact H4]. intros p Hp. rewrite (in_nscope _ _ (exit_struct_inert s c t)).
+    unfold par in Hp. now apply (hd_p _ H c p). }
+  clearbody s5. set (n := s_pending (scopes s5 c)).
+  (* every outcome differs from s5 in the debts, the counter of t, caught, and the host of c only *)
+  assert (Tail : forall sB, nscope sB = nscope s5 -> ready sB = ready s5 ->
+             (forall x, s_parent (scopes sB x) = s_parent (scopes s5 x) /\ s_host (scopes sB x) = s_host (scopes s5 x) /\ s_cancelled (scopes sB x) = s_cancelled (scopes s5 x)) ->
+             (forall x, k_cur (tasks sB x) = k_cur (tasks s5 x)) ->
+             HDI (upd_scope sB c (sc_host None))).
+  { intros sB En Er Es Ek. apply (HDI_frame s5); [exact H5|cbn; lia| | | | |].
+    - intros x p. cbn. unfold upd. destruct (Nat.eqb_spec x c) as [->|Hx]; cbn; rewrite (proj1 (Es _)); auto.
+    - intros x. cbn. unfold upd. destruct (Nat.eqb_spec x c) as [->|Hx]; cbn; [intros E; now elim E|].
+      rewrite (proj1 (proj2 (Es _))). auto.
+    - intros t' x. cbn. rewrite Ek. auto.
+    - intros x _. cbn. unfold upd. destruct (Nat.eqb_spec x c) as [->|Hx]; cbn; rewrite (proj2 (proj2 (Es _))); auto.
+    - intros x. cbn. now rewrite Er. }
+  set (sA := upd_scope (iter n (fun a => task_uncancel a t) s5) c (sc_pending 0)).
+  pose proof (iter_uncancel_spec n t s5) as [U1 [U2 _]].
+  assert (TA : forall g, (forall k, s_parent (g k) = s_parent k /\ s_host (g k) = s_host k /\ s_cancelled (g k) = s_cancelled k) ->
+             HDI (upd_scope (upd_scope sA c g) c (sc_host None))).
+  { intros g Hg. apply Tail.
+    - cbn. exact U2.
+    - cbn. apply iter_uncancel_ready.
+    - intros x. unfold sA. cbn [scopes upd_scope set_scopes]. rewrite U1. unfold upd.
+      destruct (Nat.eqb_spec x c) as [->|Hx]; [|now repeat split]. rewrite ?Nat.eqb_refl.
+      destruct (Hg (sc_pending 0 (scopes s5 c))) as [G1 [G2 G3]]. now rewrite G1, G2, G3.
+    - intros x. cbn. apply iter_uncancel_cur. }
+  assert (PayA : HDI (upd_scope sA c (sc_host None))).
+  { apply Tail.
+    - cbn. exact U2.
+    - cbn. apply iter_uncancel_ready.
+    - intros x. unfold sA. cbn [scopes upd_scope set_scopes]. rewrite U1. unfold upd.
+      destruct (Nat.eqb_spec x c) as [->|Hx]; now repeat split.
+    - intros x. cbn. apply iter_uncancel_cur. }
+  assert (PayC : HDI (upd_scope (upd_scope sA c (sc_caught true)) c (sc_host None))) by (apply TA; intros k; now repeat split).
+  destruct (s_cancelled (scopes s5 c) && negb (parent_visible s5 c)).
+  - destruct exc as [e|].
+    + destruct e; cbn [is_anyio_cancel].
+      * destruct o; cbn [fst]; assumption.
+      * cbn [fst]. exact PayA.
+      * cbn [fst]. exact PayA.
+      * cbn [fst]. exact PayA.
+      * destruct (split_exn (EGroup l)) as [[m|] [r|]]; cbn [fst]; assumption.
+    + cbn [fst]. exact PayA.
+  - cbn [fst]. fold n. destruct (Nat.eqb n 0).
+    + apply Tail; auto.
+    + destruct par as [p|]; [|exact PayA].
+      destruct (opt_eqb (s_host (scopes s5 p)) t); [|exact PayA].
+      apply Tail; [reflexivity|reflexivity| |reflexivity].
+      intros x. cbn. unfold upd. destruct (Nat.eqb_spec x c) as [->|Hx]; [rewrite ?Nat.eqb_refl|];
+        try (destruct (Nat.eqb_spec c p)); try (destruct (Nat.eqb_spec x p)); try subst; now repeat split.
+Qed.
+
+Lemma H_spawn s g sf : g_scope (groups s g) < nscope s -> hstep s (fst (spawn_task s g sf)).
+Proof.
+  intros Ag H. rewrite spawn_task_eq. cbn [fst].
+  pose proof (H_new_scope s None false H) as H1. set (s1 := fst (new_scope s None false)) in *.
+  assert (N1 : nscope s1 = S (nscope s)) by reflexivity.
+  assert (H4 : HDI (spawn_struct s g sf)).
+  { apply (HDI_frame s1); [exact H1|unfold spawn_struct; cbn; lia| | | | |].
+    - intros x p. unfold spawn_struct. fold s1. cbn. unfold upd.
+      destruct (Nat.eqb_spec x (g_scope (groups s g))) as [->|Hx]; cbn; auto.
+    - intros x. unfold spawn_struct. fold s1. cbn. unfold upd.
+      destruct (Nat.eqb_spec x (g_scope (groups s g))) as [->|Hx]; cbn; auto.
+    - intros t x. unfold spawn_struct. fold s1. cbn. unfold upd. destruct (Nat.eqb_spec t (ntask s)) as [->|Ht]; [|auto].
+      cbn. intros E. inversion E; subst x. right. lia.
+    - intros x _. unfold spawn_struct. fold s1. cbn. unfold upd.
+      destruct (Nat.eqb_spec x (g_scope (groups s g))) as [->|Hx]; cbn; auto.
+    - apply rdq_same. reflexivity. }
+  assert (N4 : nscope (spawn_struct s g sf) = S (nscope s)) by reflexivity.
+  apply (HDI_hq (restart (spawn_struct s g sf) (Some (g_scope (groups s g))))).
+  - apply H_restart; [|exact H4]. intros c Hc. inversion Hc; subst c. lia.
+  - apply hq_ss; [apply treq_call_soon|now split|apply (rdq_soon _ _ (HStep (ntask s))); [reflexivity|discriminate]].
+Qed.
+
+Lemma H_run_task_done s t : hstep s (run_task_done s t).
+Proof.
+  intros H. unfold run_task_done. cbn [tasks set_running].
+  destruct (k_group (tasks s t)) as [g|]; [|now apply (HDI_hq s), hq_set_running].
+  set (s3 := upd_task _ t _).
+  assert (H3 : HDI s3).
+  { apply (HDI_frame s); [exact H|unfold s3; destruct (k_cur (tasks s t)); cbn; lia| | | | |].
+    - intros x p. unfold s3. destruct (k_cur (tasks s t)) as [c|]; cbn; unfold upd; auto.
+      destruct (Nat.eqb_spec x c) as [->|Hx]; cbn; auto.
+    - intros x. unfold s3. destruct (k_cur (tasks s t)) as [c|]; cbn; unfold upd; auto.
+      destruct (Nat.eqb_spec x c) as [->|Hx]; cbn; auto.
+    - intros t' x. unfold s3. cbn. unfold upd. destruct (Nat.eqb_spec t' t) as [->|Ht]; [cbn; discriminate|].
+      destruct (k_cur (tasks s t)); cbn; auto.
+    - intros x _. unfold s3. destruct (k_cur (tasks s t)) as [c|]; cbn; unfold upd; auto.
+      destruct (Nat.eqb_spec x c) as [->|Hx]; cbn; auto.
+    - apply rdq_same. unfold s3. destruct (k_cur (tasks s t)); reflexivity. }
+  clearbody s3.
+  set (s4 := match g_fut (groups s3 g) with
+             | Some f => match g_tasks (groups s3 g) with [] => fut_complete s3 f (FRes 0) | _ :: _ => s3 end
+             | None => s3 end).
+  assert (H4 : HDI s4).
+  { unfold s4. destruct (g_fut (groups s3 g)); [|exact H3].
+    destruct (g_tasks (groups s3 g)); [apply (HDI_hq s3); [exact H3|apply hq_fut_complete]|exact H3]. }
+  clearbody s4.
+  assert (Kc : forall a, hstep a (if eff_cancelled a (g_scope (groups a g)) then a
+                                  else scope_cancel a (g_scope (groups a g)) false)).
+  { intros a. destruct (eff_cancelled a _); [apply hstep_refl|apply H_scope_cancel]. }
+  assert (Kc2 : forall a, hstep a (if s_cancelled (scopes a (g_scope (groups a g))) then a
+                                   else scope_cancel a (g_scope (groups a g)) false)).
+  { intros a. destruct (s_cancelled _); [apply hstep_refl|apply H_scope_cancel]. }
+  assert (Kx : forall e, hstep s4 (upd_group s4 g (fun x => gr_excs (g_excs x ++ [(t, e)]) x))).
+  { intros e. apply hstep_hq, hq_upd_group. intros k; reflexivity. }
+  assert (Kf : forall f v, hstep s4 (fut_complete s4 f v)) by (intros f v; apply hstep_hq, hq_fut_complete).
+  destruct (k_done (tasks s t)) as [[v|e|e]|].
+  - destruct (k_startfut (tasks s t)) as [f|]; [|exact H4].
+    destruct (f_st (futs s4 f)); try exact H4. now apply Kf.
+  - destruct (k_startfut (tasks s t)) as [f|].
+    + destruct (f_st (futs s4 f)).
+      * now apply Kf.
+      * destruct (is_cancel e); [now apply Kc|]. apply Kc2. now apply Kx.
+      * destruct (is_cancel e); [now apply Kc|]. apply Kc2. now apply Kx.
+      * destruct (is_cancel e); [exact H4|]. apply Kc2. now apply Kx.
+    + destruct (is_cancel e); [now apply Kc|]. apply Kc2. now apply Kx.
+  - destruct (k_startfut (tasks s t)) as [f|].
+    + destruct (f_st (futs s4 f)).
+      * now apply Kf.
+      * destruct (is_cancel e); [now apply Kc|]. apply Kc2. now apply Kx.
+      * destruct (is_cancel e); [now apply Kc|]. apply Kc2. now apply Kx.
+      * destruct (is_cancel e); [exact H4|]. apply Kc2. now apply Kx.
+    + destruct (is_cancel e); [now apply Kc|]. apply Kc2. now apply Kx.
+  - destruct (k_startfut (tasks s t)) as [f|]; [|exact H4].
+    destruct (f_st (futs s4 f)); try exact H4. now apply Kf.
+Qed.
+
+Lemma H_ret s t r : hstep s (fst (ret_to_puppet s t r)).
+Proof. apply hstep_hq, hq_ret. Qed.
+
+Lemma H_aexit_raise s t g e : hstep s (fst (aexit_raise s t g e)).
+Proof.
+  intros H. unfold aexit_raise. pose proof (H_exit s (g_scope (groups s g)) t (Some e) H) as K1.
+  destruct (scope_exit s (g_scope (groups s g)) t (Some e)) as [s1 x]. cbn [fst] in K1.
+  assert (K2 : HDI (upd_group s1 g (gr_left true))) by (apply (HDI_hq s1); [exact K1|apply hq_upd_group; intros k; reflexivity]).
+  destruct x; cbn [fst]; try exact K2.
+  apply (HDI_hq _ _ K2). apply hq_upd_task. intros k; reflexivity.
+Qed.
+
+Lemma H_aexit_finish s t g exc : hstep s (fst (aexit_finish s t g exc)).
+Proof.
+  intros H. unfold aexit_finish. destruct (map snd (g_excs (groups s g))) as [|e0 l]; [|now apply H_aexit_raise].
+  destruct exc as [e|]; [now apply H_aexit_raise|].
+  pose proof (H_exit s (g_scope (groups s g)) t None H) as K1.
+  destruct (scope_exit s (g_scope (groups s g)) t None) as [s1 x]. cbn [fst] in K1.
+  destruct x; cbn [fst]; (apply (HDI_hq s1); [exact K1|apply hq_upd_group; intros k; reflexivity]).
+Qed.
+
+Lemma H_new_enter s d sh t : hstep s (fst (scope_enter (fst (new_scope s d sh)) (nscope s) t)).
+Proof. intros H. apply H_enter; [cbn; lia|now apply H_new_scope]. Qed.
+
+Lemma H_wof s t g ws exc : hstep s (fst (aexit_wait_or_finish s t g ws exc)).
+Proof.
+  intros H. unfold aexit_wait_or_finish. destruct (g_tasks (groups s g)) as [|c0 cs].
+  - destruct ws as [w|].
+    + pose proof (H_exit s w t None H) as K1. destruct (scope_exit s w t None) as [s1 x]. cbn [fst] in K1.
+      destruct x.
+      * pose proof (H_aexit_finish s1 t g exc K1) as K2. destruct (aexit_finish s1 t g exc) as [s2 r]. now apply H_ret.
+      * pose proof (H_aexit_finish s1 t g exc K1) as K2. destruct (aexit_finish s1 t g exc) as [s2 r]. now apply H_ret.
+      * pose proof (H_aexit_raise s1 t g e K1) as K2. destruct (aexit_raise s1 t g e) as [s2 r]. now apply H_ret.
+    + pose proof (H_aexit_finish s t g exc H) as K2. destruct (aexit_finish s t g exc) as [s2 r]. now apply H_ret.
+  - assert (Tail : forall a w, HDI a ->
+              HDI (fst (let '(s1, f) := new_fut a in
+                        blocked (set_ctl (suspend_on (upd_group s1 g (gr_fut (Some f))) t f) t (CAexitWait g w exc))))).
+    { intros a w Ha. unfold new_fut. cbv zeta. cbn [fst blocked].
+      match goal with |- HDI (set_running (set_ctl (suspend_on ?b t ?f) t ?c) None) =>
+        apply (HDI_hq (suspend_on b t f)); [|eapply hq_trans; [apply hq_set_ctl|apply hq_set_running]];
+        apply (HDI_hq b); [|apply hq_suspend_on] end.
+      apply (HDI_hq (fst (new_fut a))); [apply (HDI_hq a); [exact Ha|apply hq_new_fut]|].
+      apply hq_upd_group. intros k; reflexivity. }
+    destruct ws as [w|]; [now apply Tail|].
+    unfold new_scope. cbv zeta. cbn [fst]. apply Tail. now apply (H_new_enter s None false t).
+Qed.
+
+Lemma H_same_fields a b :
+  HDI a -> nscope b = nscope a -> scopes b = scopes a -> (forall t, k_cur (tasks b t) = k_cur (tasks a t)) ->
+  rdq a b -> HDI b.
+Proof.
+  intros H N Es Et R. apply (HDI_frame a); [exact H|lia| | | | |exact R].
+  - intros x p. rewrite Es. auto.
+  - intros x. rewrite Es. auto.
+  - intros t x. rewrite Et. auto.
+  - intros x _. now rewrite Es.
+Qed.
+
+Lemma H_block s s1 t c : hstep s s1 -> hstep s (fst (blocked (set_ctl s1 t c))).
+Proof.
+  intros K H. cbn [fst blocked]. apply (HDI_hq s1); [now apply K|]. eapply hq_trans; [apply hq_set_ctl|apply hq_set_running].
+Qed.
+
+Lemma H_puppet_op s0 t o : Tree s0 -> op_ok s0 o = true -> hstep s0 (fst (puppet_op s0 t o)).
+Proof.
+  intros T Hok H0. unfold puppet_op.
+  assert (Kt : treq s0 (begin_act s0 t)) by apply treq_begin_act.
+  assert (H : HDI (begin_act s0 t)) by (apply (HDI_hq s0); [exact H0|apply hq_begin_act]).
+  set (s := begin_act s0 t) in *.
+  assert (Q : forall s1 r, hstep s s1 -> HDI (fst (ret_to_puppet s1 t r))).
+  { intros s1 r K. apply H_ret. now apply K. }
+  assert (B : forall s1 c, hstep s s1 -> HDI (fst (blocked (set_ctl s1 t c)))).
+  { intros s1 c K. now apply (H_block s s1 t c K). }
+  assert (Na : forall x, s_active (scopes s x) = true -> x < nscope s).
+  { intros x Hx. rewrite (tq_active _ _ Kt) in Hx. rewrite (tq_nscope _ _ Kt). apply (tr_act_alloc _ T x Hx). }
+  assert (Ga : forall g, group_active s g = true -> g_scope (groups s g) < nscope s).
+  { intros g Hg. unfold group_active in Hg. apply andb_true_iff in Hg. now apply Na. }
+  destruct o; try exact H0.
+  - unfold new_scope. cbv zeta. apply Q. apply (H_new_scope s d sh).
+  - (* AEnter *)
+    assert (Ac : c < nscope s).
+    { cbn [op_ok] in Hok. apply andb_true_iff in Hok. destruct Hok as [Hok _]. apply andb_true_iff in Hok.
+      destruct Hok as [_ Hok]. apply Nat.ltb_lt in Hok. now rewrite (tq_nscope _ _ Kt). }
+    pose proof (H_enter s c t Ac) as K. destruct (scope_enter s c t) as [s1 e]. now apply Q.
+  - (* AExit *)
+    pose proof (H_exit s c t (k_held (tasks s t))) as K.
+    destruct (scope_exit s c t (k_held (tasks s t))) as [s1 x]. cbn [fst] in K. destruct x.
+    + assert (K2 : hstep s (upd_task s1 t (tk_held None))).
+      { eapply hstep_trans; [exact K|]. apply hstep_hq, hq_upd_task. intros k; reflexivity. }
+      destruct (_ && _); now apply Q.
+    + now apply Q.
+    + now apply Q.
+  - apply Q. apply H_scope_cancel.
+  - (* ASetShield *)
+    destruct (Bool.eqb _ b); [apply Q, hstep_refl|]. apply Q. destruct b.
+    + apply H_upd_scope. intros k; now repeat split.
+    + apply (hstep_trans s (upd_scope s c (sc_shield false))); [apply H_upd_scope; intros k; now repeat split|].
+      intros H1. apply H_restart; [|exact H1]. intros p Hp. now apply (hd_p _ H1 c p).
+  - (* ASetDeadline *)
+    apply Q. set (s1 := cancel_timeout _ c).
+    assert (K : hstep s s1).
+    { unfold s1. apply (hstep_trans s (upd_scope s c (sc_deadline d))); [apply H_upd_scope; intros k; now repeat split|].
+      apply hstep_hq, hq_cancel_timeout. }
+    destruct (_ && _); [|exact K]. eapply hstep_trans; [exact K|apply H_scope_timeout].
+  - (* AGroupNew *)
+    unfold new_scope. cbv zeta. apply Q. intros H1.
+    apply (H_same_fields (fst (new_scope s None false))); [now apply H_new_scope|reflexivity|reflexivity|reflexivity|now apply rdq_same].
+  - (* AGroupEnter *)
+    destruct (g_entered (groups s g)); [apply Q, hstep_refl|].
+    set (s1 := upd_group s g (gr_entered true)).
+    assert (Ag : g_scope (groups s1 g) < nscope s1).
+    { cbn [op_ok] in Hok. apply andb_true_iff in Hok. destruct Hok as [G1 G2]. apply Nat.ltb_lt in G1, G2.
+      assert (A : alloc_g s0 g) by (split; assumption).
+      pose proof (tr_gscope _ T g A) as [_ L]. unfold s1. cbn. unfold upd. now rewrite Nat.eqb_refl. }
+    pose proof (H_enter s1 (g_scope (groups s1 g)) t Ag) as K.
+    destruct (scope_enter _ _ t) as [s2 e]. cbn [fst] in K. apply Q.
+    apply (hstep_trans s s1); [apply hstep_hq, hq_upd_group; intros k; reflexivity|exact K].
+  - (* AGroupExit *)
+    set (s1 := match k_held (tasks s t) with Some e => _ | None => s end).
+    assert (H1 : HDI s1).
+    { unfold s1. destruct (k_held (tasks s t)) as [e|]; [|exact H]. cbv zeta.
+      destruct (is_cancel e); [now apply H_scope_cancel|].
+      apply (HDI_hq (scope_cancel s (g_scope (groups s g)) false)); [now apply H_scope_cancel|].
+      apply hq_upd_group. intros k; reflexivity. }
+    destruct (g_tasks (groups s1 g)) eqn:Eg.
+    + unfold new_scope. cbv zeta. cbn [fst blocked].
+      match goal with |- HDI (set_running (set_ctl (bare_yield ?a t) t ?c) None) =>
+        apply (HDI_hq a); [|eapply hq_trans; [apply hq_bare_yield|eapply hq_trans; [apply hq_set_ctl|apply hq_set_running]]] end.
+      now apply (H_new_enter s1 None true t).
+    + now apply H_wof.
+  - (* ASpawn *)
+    destruct (group_active s g) eqn:Eg; cbn [negb]; [|apply Q, hstep_refl].
+    pose proof (H_spawn s g None (Ga g Eg)) as K. destruct (spawn_task s g None) as [s1 c]. now apply Q.
+  - (* AStart *)
+    destruct (group_active s g) eqn:Eg; cbn [negb]; [|apply Q, hstep_refl].
+    unfold new_fut. cbv zeta.
+    match goal with |- context [spawn_task ?a g ?sf] =>
+      assert (K : hstep s (fst (spawn_task a g sf))) by
+        (apply (hstep_trans s a); [apply hstep_hq, (hq_new_fut s)|apply H_spawn; exact (Ga g Eg)]);
+      destruct (spawn_task a g sf) as [s2 c] end.
+    cbn [fst blocked] in *.
+    apply (HDI_hq (suspend_on s2 t (nfut s))); [|eapply hq_trans; [apply hq_set_ctl|apply hq_set_running]].
+    apply (HDI_hq s2); [now apply K|apply hq_suspend_on].
+  - (* AStarted *)
+    destruct (k_startfut (tasks s t)) as [f|]; [|apply Q, hstep_refl].
+    destruct (f_st (futs s f)); apply Q; try apply hstep_refl. apply hstep_hq, hq_fut_complete.
+  - destruct (e_set _); apply Q; [apply hstep_refl|apply H_scope_cancel].
+  - pose proof (hq_event_wait s t (k_hevent (tasks s h))) as K.
+    destruct (event_wait s t (k_hevent (tasks s h))) as [s1 f]. cbn [fst] in K. apply B. now apply hstep_hq.
+  - apply B. apply hstep_hq, hq_bare_yield.
+  - destruct (ckif_spins _ _ _); [apply B, hstep_hq, hq_bare_yield|apply Q, hstep_refl].
+  - (* AShieldCk *)
+    unfold new_scope. cbv zeta. cbn [fst blocked].
+    match goal with |- HDI (set_running (set_ctl (bare_yield ?a t) t ?c) None) =>
+      apply (HDI_hq a); [|eapply hq_trans; [apply hq_bare_yield|eapply hq_trans; [apply hq_set_ctl|apply hq_set_running]]] end.
+    now apply (H_new_enter s None true t).
+  - (* ASleep *)
+    unfold new_fut. cbv zeta. destruct d as [dt|].
+    + unfold call_at. cbv zeta. cbn [fst blocked].
+      match goal with |- HDI (set_running (set_ctl (suspend_on ?a t ?f) t ?c) None) =>
+        apply (HDI_hq (suspend_on a t f)); [|eapply hq_trans; [apply hq_set_ctl|apply hq_set_running]];
+        apply (HDI_hq a); [|apply hq_suspend_on] end.
+      apply (HDI_hq (fst (new_fut s))); [apply (HDI_hq s); [exact H|apply hq_new_fut]|].
+      apply (hq_call_at (fst (new_fut s))).
+    + cbn [fst blocked].
+      match goal with |- HDI (set_running (set_ctl (suspend_on ?a t ?f) t ?c) None) =>
+        apply (HDI_hq (suspend_on a t f)); [|eapply hq_trans; [apply hq_set_ctl|apply hq_set_running]];
+        apply (HDI_hq a); [|apply hq_suspend_on] end.
+      apply (HDI_hq s); [exact H|apply hq_new_fut].
+  - apply Q. apply hstep_hq, hq_upd_task. intros k; reflexivity.
+  - apply Q. apply hstep_hq, hq_upd_task. intros k; reflexivity.
+  - apply Q. apply hstep_hq, hq_upd_task. intros k; reflexivity.
+  - apply Q. apply hstep_hq. apply hq_ss; [apply treq_task_uncancel|now split|now apply rdq_same].
+  - cbn [fst]. apply (HDI_hq (park s t)); [apply (HDI_hq s); [exact H|apply hq_park]|apply hq_set_running].
+  - (* AFailAt *)
+    unfold new_scope. cbv zeta.
+    match goal with |- context [scope_enter ?a ?c t] =>
+      assert (K : hstep s (fst (scope_enter a c t))) by (apply (H_new_enter s d sh t));
+      destruct (scope_enter a c t) as [s2 e] end.
+    cbn [fst] in K. now apply Q.
+Qed.
+
+Lemma H_puppet_finish s0 t v : hstep s0 (fst (puppet_finish s0 t v)).
+Proof.
+  intros H0. unfold puppet_finish.
+  set (s := begin_act s0 t).
+  set (raw := match k_held (tasks s t) with Some e => OExc e | None => ORet v end).
+  set (s1 := upd_task s t (tk_final (Some raw))).
+  assert (H1 : HDI s1).
+  { apply (HDI_hq s); [apply (HDI_hq s0); [exact H0|apply hq_begin_act]|]. apply hq_upd_task. intros k; reflexivity. }
+  destruct (k_group (tasks s t)).
+  - set (s2 := upd_task s1 t _). set (s3 := event_set s2 (k_hevent (tasks s t))).
+    assert (H3 : HDI s3).
+    { apply (HDI_hq s2); [|apply hq_event_set]. apply (HDI_hq s1); [exact H1|]. apply hq_upd_task. intros k. destruct raw; reflexivity. }
+    pose proof (H_exit s3 (k_hscope (tasks s t)) t (k_held (tasks s t)) H3) as H4.
+    destruct (scope_exit s3 (k_hscope (tasks s t)) t (k_held (tasks s t))) as [s4 x]. cbn [fst] in H4.
+    destruct x; cbn [fst]; (apply (HDI_hq s4); [exact H4|apply hq_finish_task]).
+  - cbn [fst]. apply (HDI_hq s1); [exact H1|apply hq_finish_task].
+Qed.
+
+Lemma H_resume s0 t fo : Tree s0 -> Ctl s0 -> hstep s0 (fst (resume s0 t fo)).
+Proof.
+  intros T C H0. unfold resume.
+  pose proof (hq_incoming s0 t fo) as Q0. pose proof (treq_incoming s0 t fo) as Kt.
+  pose proof (incoming_ctl s0 t fo) as Ec.
+  assert (Eg : k_group (tasks (fst (incoming s0 t fo)) t) = k_group (tasks s0 t)) by apply (tq_group _ _ Kt).
+  assert (Ehs : k_hscope (tasks (fst (incoming s0 t fo)) t) = k_hscope (tasks s0 t)).
+  { pose proof (tq_tasks _ _ Kt t) as E. unfold tk_tree in E. now inversion E. }
+  destruct (incoming s0 t fo) as [s inc]. cbn [fst] in *.
+  assert (H : HDI s) by now apply (HDI_hq s0).
+  assert (Q : forall s1 r, hstep s s1 -> HDI (fst (ret_to_puppet s1 t r))).
+  { intros s1 r K. apply H_ret. now apply K. }
+  destruct (k_ctl (tasks s t)) eqn:Ectl; try exact H0.
+  - (* CNew *)
+    set (s1 := upd_task s t (tk_started true)).
+    assert (H1 : HDI s1) by (apply (HDI_hq s); [exact H|apply hq_upd_task; intros k; reflexivity]).
+    destruct inc as [e|].
+    + cbn [fst]. apply (HDI_hq s1); [exact H1|apply hq_finish_task].
+    + cbn [fst]. set (s2 := match k_group (tasks s1 t) with Some _ => _ | None => s1 end).
+      assert (H2 : HDI s2).
+      { unfold s2. destruct (k_group (tasks s1 t)) as [g|] eqn:Eg1; [|exact H1]. apply H_enter; [|exact H1].
+        assert (A : alloc_t s0 t).
+        { destruct (alloc_t_dec s0 t) as [A|A]; [exact A|]. rewrite (c_unalloc _ C t A) in Ec. congruence. }
+        assert (Eg0 : k_group (tasks s0 t) = Some g).
+        { rewrite <- Eg. unfold s1 in Eg1. cbn in Eg1. unfold upd in Eg1. rewrite Nat.eqb_refl in Eg1. exact Eg1. }
+        destruct (tr_kgroup _ T t g A Eg0) as [_ [[_ L] _]].
+        unfold s1. cbn [nscope upd_task set_tasks tasks k_hscope]. unfold upd. rewrite Nat.eqb_refl. cbn.
+        rewrite Ehs, (tq_nscope _ _ Kt). exact L. }
+      apply (HDI_hq (park s2 t)); [apply (HDI_hq s2); [exact H2|apply hq_park]|apply hq_set_running].
+  - (* CIdle *)
+    cbn [fst]. set (s1 := match inc with Some e => upd_task s t (tk_held (Some e)) | None => s end).
+    assert (H1 : HDI s1) by (unfold s1; destruct inc; [apply (HDI_hq s); [exact H|apply hq_upd_task; intros k; reflexivity]|exact H]).
+    apply (HDI_hq (park s1 t)); [apply (HDI_hq s1); [exact H1|apply hq_park]|apply hq_set_running].
+  - (* CYield *)
+    destruct k as [| |c].
+    + apply Q, hstep_refl.
+    + destruct inc; [apply Q, hstep_refl|]. cbn [fst blocked].
+      apply (HDI_hq s); [exact H|eapply hq_trans; [apply hq_bare_yield|apply hq_set_running]].
+    + pose proof (H_exit s c t inc) as K. destruct (scope_exit s c t inc) as [s1 x]. cbn [fst] in K.
+      destruct x; now apply Q.
+  - apply Q. apply hstep_hq, hq_timer_cancel.
+  - (* CAexitWait *)
+    set (s1 := upd_group s g (gr_fut None)).
+    assert (H1 : HDI s1) by (apply (HDI_hq s); [exact H|apply hq_upd_group; intros k; reflexivity]).
+    destruct inc as [e|].
+    + apply H_wof. apply H_scope_cancel. apply H_upd_scope; [intros k; now repeat split|exact H1].
+    + now apply H_wof.
+  - (* CAexitCk *)
+    pose proof (H_exit s sc t inc H) as H1. destruct (scope_exit s sc t inc) as [s1 x]. cbn [fst] in H1.
+    destruct x as [| |e].
+    + now apply H_wof.
+    + destruct inc as [e|]; [|now apply H_wof].
+      destruct (is_cancel e).
+      * apply H_wof. now apply H_scope_cancel.
+      * pose proof (H_aexit_raise s1 t g e H1) as H2. destruct (aexit_raise s1 t g e) as [s2 r]. now apply H_ret.
+    + pose proof (H_aexit_raise s1 t g e H1) as H2. destruct (aexit_raise s1 t g e) as [s2 r]. now apply H_ret.
+  - (* CStartWait *)
+    destruct inc as [e|]; [|apply Q, hstep_refl].
+    destruct (handle_pending s child); [|destruct (f_st (futs s _)); apply Q, hstep_refl].
+    unfold new_scope. cbv zeta.
+    set (s1 := scope_cancel s (k_hscope (tasks s child)) false).
+    match goal with |- context [scope_enter ?a ?c t] => set (s3 := fst (scope_enter a c t)) end.
+    assert (H3 : HDI s3) by (unfold s3; apply (H_new_enter s1 None true t); now apply H_scope_cancel).
+    pose proof (hq_event_wait s3 t (k_hevent (tasks s3 child))) as K4.
+    destruct (event_wait s3 t (k_hevent (tasks s3 child))) as [s4 wf]. cbn [fst blocked] in *.
+    apply (HDI_hq s4); [now apply (HDI_hq s3)|eapply hq_trans; [apply hq_set_ctl|apply hq_set_running]].
+  - (* CStartJoin *)
+    set (s1 := event_unwait s (k_hevent (tasks s child)) f).
+    assert (H1 : HDI s1) by (apply (HDI_hq s); [exact H|apply hq_event_unwait]).
+    pose proof (H_exit s1 sc t inc H1) as K. destruct (scope_exit s1 sc t inc) as [s2 x]. cbn [fst] in K.
+    destruct x; [| destruct inc |]; apply H_ret; exact K.
+  - apply Q. apply hstep_hq, hq_event_unwait.
+Qed.
+
+Lemma H_run_handle s h : Tree s -> Ctl s -> hstep s (fst (run_handle s h)).
+Proof.
+  intros T C H. unfold run_handle. destruct (existsb (handle_eqb h) (ready s)) eqn:Ex; cbn [negb]; [|exact H].
+  apply existsb_handle in Ex.
+  set (s1 := set_ready s (remove_first h (ready s))).
+  assert (Q1 : hq s s1) by (apply hq_ss; [apply treq_set_ready|now split|apply rdq_remove_first]).
+  assert (H1 : HDI s1) by now apply (HDI_hq s).
+  assert (T1 : Tree s1) by (apply (Tree_treq s); [exact T|apply treq_set_ready]).
+  assert (C1 : Ctl s1).
+  { apply (Ctl_step0 [] s s1 C); [|intros x []]. apply creq_creq0.
+    apply creq_treq; [apply treq_set_ready|apply tcb_same_tasks; reflexivity|apply rq_td_remove_first]. }
+  destruct h; cbn [fst].
+  - now apply H_resume.
+  - now apply H_resume.
+  - destruct (hd_c _ H s0 Ex) as [Cc Ac].
+    apply (HDI_hq (deliver_top (set_running s1 None) s0)); [|apply hq_set_running].
+    apply H_deliver_top; [exact Cc|exact Ac|]. apply (HDI_hq s1); [exact H1|apply hq_set_running].
+  - now apply H_run_task_done.
+  - apply (HDI_hq s1); [exact H1|apply hq_fut_complete].
+  - apply (HDI_hq (scope_timeout (set_running s1 None) s0)); [|apply hq_set_running].
+    apply H_scope_timeout. apply (HDI_hq s1); [exact H1|apply hq_set_running].
+Qed.
+
+Theorem H_step s o : SInv s -> op_ok s o = true -> hstep s (fst (step s o)).
+Proof.
+  intros [[T C] _] Hok H. unfold step. destruct (actor o) as [t|].
+  - destruct (negb (idle s t)); [exact H|]. destruct o; try (now apply H_puppet_op). now apply H_puppet_finish.
+  - destruct o; try exact H.
+    + (* ANewRoot *)
+      unfold new_root. cbn [fst].
+      match goal with |- HDI (set_running (park ?a ?t) None) => set (s1 := a) end.
+      apply (HDI_hq (park s1 (ntask s))); [|apply hq_set_running].
+      apply (HDI_hq s1); [|apply hq_park].
+      apply (H_same_fields s); [exact H|reflexivity|reflexivity| |now apply rdq_same].
+      intros t. unfold s1. cbn. unfold upd. destruct (Nat.eqb_spec t (ntask s)) as [->|Ht]; [|reflexivity].
+      cbn. destruct (k_cur (tasks s (ntask s))) as [x|] eqn:E; [|reflexivity].
+      exfalso. pose proof (tr_cur_alloc _ T _ _ E) as A. unfold alloc_t in A. lia.
+    + cbn [fst]. apply (HDI_hq s); [exact H|apply hq_task_cancel].
+    + cbn [fst]. apply (HDI_hq (scope_cancel (set_running s None) c false)); [|apply hq_set_running].
+      apply H_scope_cancel. apply (HDI_hq s); [exact H|apply hq_set_running].
+    + now apply H_run_handle.
+    + destruct (Z.ltb dt 0); [exact H|]. cbn [fst]. apply (HDI_hq s); [exact H|apply hq_tick].
+Qed.
+
+Lemma HDI_init : HDI init.
+Proof. constructor; cbn; [intros c []|discriminate|intros c H; now elim H|discriminate]. Qed.
+
+Lemma hdi_final ops : forall s, SInv s -> HDI s -> ops_ok s ops = true -> HDI (final step s ops).
+Proof.
+  induction ops as [|o r IH]; intros s I H Hok; cbn in *; [exact H|].
+  apply andb_true_iff in Hok. destruct Hok as [Ho Hr]. apply IH; [now apply step_inv|now apply H_step|exact Hr].
+Qed.
+
+Theorem reach_hdi s : reach_ok s -> HDI s.
+Proof. intros [ops [H ->]]. apply hdi_final; [apply sinv_init|apply HDI_init|exact H]. Qed.
+
+(* a delivery callback in the ready queue of a reachable state belongs to a cancelled scope *)
+Corollary deliver_handle_cancelled s c :
+  reach_ok s -> In (HDeliver c) (ready s) -> s_cancelled (scopes s c) = true.
+Proof. intros R H. apply (hd_c _ (reach_hdi s R) c H). Qed.
